@@ -121,14 +121,24 @@ def gen_web(seed, tier, focus="C41"):
             op["token"] = ch.pick(W, ("tok", i), ["none", "wrong", "wrong-scheme", "right", "prefix", "empty"])
         op["concurrent"] = ch.chance(W, ("conc", i), 0.12)
         ops.append(op)
+    blacklist = (ch.pick("config", "blacklisted", [["mut.txt"], ["sub/m.txt"], ["deep"], ["mut.txt", "deep"], ["locked/lm.txt"]])
+                 if ch.chance("config", "blacklist", 0.25) else [])
+    for j, bname in enumerate(blacklist):
+        # the operator re-links (renames, moves) an object while it is blacklisted: link it by its write cap into a directory
+        # through the gateway, then look at that directory through its read-only cap
+        for rep in range(ch.randint(W, ("relink-n", j), 1, 2)):
+            rk_ = ch.pick(W, ("relink-kind", j, rep), ["post-mod", "post-mod", "put-uri"])
+            ops.insert(ch.randint(W, ("relink-at", j, rep), 0, len(ops)),
+                       {"kind": rk_, "t": "uri", "bodycap": "rw", "other_name": bname, "flavour": "rw",
+                        "start": ch.pick(W, ("relink-dir", j, rep), [0, 5, 6]), "path": ([ch.randrange(W, ("relink-p", j, rep), 50)] if rk_ == "put-uri" else []), "newname": True,
+                        "replace": "true", "fmt": None, "x": ch.randrange(W, ("relink-x", j, rep), 1 << 30), "concurrent": False})
     return {"engine": "websim", "seed": seed, "focus": focus,
             "cfg": {"nservers": ch.randint("config", "nservers", 2, 4), "k": 1, "n": 2,
                     "net": {"threads": ch.pick("config", "threads", ["sync", "sync", "async"]), "batch": ch.pick("config", "batch", [0, 0, 0, 0.001, 0.02, 0.3]), "lat_profile": ch.pick("config", "lat", ["uniform", "heavy", "fifo"]), "jitter": 0.02},
                     "dirfmt": ch.pick("config", "dirfmt", ["sdmf", "sdmf", "mdmf"]),
                     # the gateway's access blacklist (private/access.blacklist) names some of the mutable objects: it answers 403
                     # for them and wraps them (ProhibitedNode) wherever it builds a node for them, also when they are re-linked
-                    "blacklist": (ch.pick("config", "blacklisted", [["mut.txt"], ["sub/m.txt"], ["deep"], ["mut.txt", "deep"], ["locked/lm.txt"]])
-                                  if ch.chance("config", "blacklist", 0.25) else [])},
+                    "blacklist": blacklist},
             "ops": ops, "faults": []}
 
 
@@ -339,6 +349,8 @@ def exec_web(case):
             body, headers = b"", {}
             method = b"GET"
             other = nodes[op["x"] % len(nodes)]
+            if op.get("other_name"):
+                other = next((n_ for n_ in nodes if n_["name"] == op["other_name"]), other)
             bodycap = {"ro": other["ro"], "rw": other["rw"] or other["ro"], "imm": nodes[1]["ro"]}.get(op.get("bodycap", "ro"))
             if kind == "put-file":
                 method = b"PUT"
@@ -520,6 +532,31 @@ def exec_web(case):
                         continue
                     stored_rw = got_[0].get_write_uri()
                     probe("link-authority-checked")
+                    # and what a holder of the parent's read-only cap is shown afterwards: by another gateway (one without this
+                    # gateway's blacklist; its t=json listing renders rw_uri from exactly this value) ...
+                    if prec["ro"] and prec["mutable"]:
+                        stl3, got3 = run(oc.create_node_from_uri(prec["ro"]).get_child_and_metadata(lname), 400_000)
+                        if stl3 == "ok":
+                            probe("child-through-ro-cap-after-link")
+                            if got3[0].get_write_uri() is not None:
+                                bad("write-cap-leaked", "after %s (status %s) linked child %r into directory %s, that child obtained through the directory's "
+                                    "read-only cap carries a write cap (a t=json listing through the read-only cap shows it as rw_uri)" % (where, code, lname, prec["name"]),
+                                    sig="C41.write-cap-leaked.child-through-ro-after-link")
+                    # ... and by this gateway
+                    if prec["ro"] and prec["mutable"]:
+                        req2, chan2, box2 = http(b"GET", b"/uri/" + prec["ro"] + b"?t=json")
+                        try:
+                            R.run_until(lambda: bool(box2), 300000)
+                        except EventCap:
+                            pass
+                        if box2:
+                            _c2, head2, body2 = response_of(req2, chan2)
+                            shown = sorted(all_rw[m_]["name"] if m_ in all_rw else "an object" for m_ in set(RW_CAP.findall(body2)))
+                            probe("listing-through-ro-cap-after-link")
+                            if shown:
+                                bad("write-cap-leaked", "after %s (status %s) linked child %r into directory %s, GET ?t=json through that directory's read-only cap "
+                                    "shows the write cap of %r" % (where, code, lname, prec["name"], shown),
+                                    sig="C41.write-cap-leaked.listing-after-link")
                     if stored_rw is not None and stored_rw != given_rw:
                         bad("link-exceeds-given-cap",
                             "%s (status %s) set child %r of directory %s from %s, but the stored link carries the write cap of %s" % (
